@@ -130,6 +130,21 @@ func (env *Env) load(lv *LV) SV {
 }
 
 func (env *Env) lookupIdent(name string) (SV, bool) {
+	if v, ok := env.lookupIdent1(name); ok {
+		return v, true
+	}
+	// renamed variable: bound by position (parameters) or by type (locals)
+	if env.fc != nil {
+		if alt, ok := env.fc.unitCtx().alias[name]; ok && alt != name {
+			if v, ok := env.lookupIdent1(alt); ok {
+				return v, true
+			}
+		}
+	}
+	return SV{}, false
+}
+
+func (env *Env) lookupIdent1(name string) (SV, bool) {
 	if t, ok := env.bound[name]; ok {
 		return mathInt(t), true
 	}
